@@ -17,7 +17,7 @@
 
    [fmt false] is the canonical printer: token for token what formatter.rs emits for every construct on which it
    is right, and the text the grammar requires where formatter.rs is wrong.  [fmt true] is the faithful model of
-   formatter.rs including its defects (see [d_*] below):
+   formatter.rs including its defects (their syntactic classes are [c_multirow], [c_named], ... below):
      * Formatter::matrix prints the elements column by column, separated by blanks, without any row separator
        (a 2x3 literal becomes a 1x6 one); it indexes every row with the column count of the first row (panic on
        a shorter row);
@@ -27,7 +27,8 @@
        (which the grammar reads as the proper relations), vec_op prints Cross as `×` (which the grammar reads as Mul).
    Tokens: whitespace is significant in Mech (matrix elements, `x/2` vs `x / 2`), so blanks are tokens; the text of
    a token list is the concatenation of the token texts.  [parse_tok] is a recursive-descent parser over these tokens
-   that follows the level table of expressions.rs. *)
+   that follows the level table of expressions.rs (l1..l7, factor); where the grammar uses longest-match alternatives
+   ([alt_best]) the model parser reads an expression first and decides by the token that follows it. *)
 From Coq Require Import List Arith ZArith String Ascii Bool.
 From MechV Require Import Base.Sexp Base.Obs.
 Import ListNotations.
